@@ -220,7 +220,7 @@ func restartOf(sc *scen.Scenario) *scen.Scenario {
 }
 
 func planC04(p *propDef, tier string, seed uint64, n int) []*Case {
-	nScen := 2
+	nScen := 3
 	if tier == "thorough" {
 		nScen = 30
 	}
@@ -240,7 +240,8 @@ func planC04(p *propDef, tier string, seed uint64, n int) []*Case {
 		sc := scen.GenCrawl(t, scen.CrawlOpts{Prop: "C04", MinSeeds: 3, MaxSeeds: 8, Small: true, Hops: true, RateLimit: -1})
 		sc.Cfg.Proxy = false
 		sc.Cfg.AsyncWARC = false
-		sc.Cfg.Seencheck = i%2 == 1 // with it on, a seed recorded as seen before the kill is skipped after restart (known finding)
+		sc.Cfg.TempInWarcs = i%3 == 2 // unusual but legal: spooled bodies go to the directory the WARC files are written to
+		sc.Cfg.Seencheck = i%2 == 1   // with it on, a seed recorded as seen before the kill is skipped after restart (known finding)
 		if sc.Cfg.MaxHops == 0 && i%2 == 0 {
 			sc.Cfg.MaxHops = 1
 		}
@@ -276,6 +277,14 @@ func planC04(p *propDef, tier string, seed uint64, n int) []*Case {
 				add(pr, pr.seed, fmt.Sprintf("kill@%s#%d", pt, nth), []scen.CtlAction{{Name: "kill", Kind: "kill", Trigger: scen.Trigger{Point: pt, Nth: nth}}}, nil)
 			}
 		}
+		// the same kills on the finish path with a WARC writer that lags far behind (finished must still imply captured)
+		for j, pt := range []string{"lq.fin.deleted", "lq.fin.delete", "reactor.finish.released", "fin.finish.sent"} {
+			for _, nth := range occurrences(pr.pc[pt], "quick") {
+				add(pr, mix(pr.seed, uint64(500+j)), fmt.Sprintf("slow-warc-writer,kill@%s#%d", pt, nth), []scen.CtlAction{{Name: "kill", Kind: "kill", Trigger: scen.Trigger{Point: pt, Nth: nth}}}, nil)
+				sc := cases[len(cases)-1].Scenario
+				sc.Sched.Slow, sc.Sched.SlowDiv = "warc.write", 64
+			}
+		}
 		// kill inside the k-th write to a WARC file, leaving a torn tail
 		step := 1
 		if tier != "thorough" && pr.writes > 24 {
@@ -305,7 +314,7 @@ func planC04(p *propDef, tier string, seed uint64, n int) []*Case {
 }
 
 func init() {
-	props["C04"] = &propDef{level: "fault_enumeration", assumptions: append([]string{"a kill is a real SIGKILL of the simulation process: what survives is what write(2) had handed to the kernel (no power-loss model; Zeno never fsyncs)", "kills inside one sqlite commit are not reachable (no seam inside the wazero VFS)"}, e2eAssumptions...), components: e2eComponents, quickRuns: 2, thorRuns: 30,
+	props["C04"] = &propDef{level: "fault_enumeration", assumptions: append([]string{"a kill is a real SIGKILL of the simulation process: what survives is what write(2) had handed to the kernel (no power-loss model; Zeno never fsyncs)", "kills inside one sqlite commit are not reachable (no seam inside the wazero VFS)"}, e2eAssumptions...), components: e2eComponents, quickRuns: 3, thorRuns: 30,
 		rule:   "per sampled scenario: one profiling run; then one two-process case per (instrumented point in the queue claim / reactor insert / finish / delete / WARC feedback paths, occurrence) with SIGKILL at that point, per WARC write #k with a torn tail, per seeded scheduler step, and per graceful-stop moment; each followed by a fault-free restart on the same job directory run to quiescence; distinct = distinct event-log hash of the first process; non-trivial as for C03",
 		planFn: planC04,
 	}
